@@ -137,18 +137,63 @@ def parse_res(line):
     return d
 
 
-def run_cases(cases, workdir, tag, threads=16, verbose_ids=None):
-    os.makedirs(workdir, exist_ok=True)
-    tsv = os.path.join(workdir, tag + ".tsv")
+class EngineDied(Exception):
+    """the process running the real macro aborted (stack overflow, abort) or did not terminate on `case`"""
+    def __init__(self, case, how, log):
+        Exception.__init__(self, how)
+        self.case, self.how, self.log = case, how, log
+
+
+def _write_tsv(cases, tsv):
     with open(tsv, "w") as f:
         for c in cases:
             cid, v, attr, item = c[0], c[1], c[2], c[3]
             meta = c[4] if len(c) > 4 else ""
             f.write("\t".join([cid, v, attr, item, meta]) + "\n")
+
+
+def _harness(tsv, cases_file, threads, timeout):
+    exe = os.path.join(HARNESS, "target", "debug", "entrait_verif_harness")
+    try:
+        rc, out = sh([exe, tsv, cases_file, str(threads)], timeout=timeout)
+    except subprocess.TimeoutExpired:
+        return "does not terminate", ""
+    return (None if rc == 0 else "aborts the process (exit status %d)" % rc), out
+
+
+def isolate_death(cases, workdir):
+    """one case on which the engine dies, by bisection (each probe run is bounded in time)"""
+    lo = list(cases)
+    tsv, out = os.path.join(workdir, "isolate.tsv"), os.path.join(workdir, "isolate.cases")
+    how, log = "dies", ""
+    while len(lo) > 1:
+        half = lo[:len(lo) // 2]
+        _write_tsv(half, tsv)
+        h, l = _harness(tsv, out, 4, 60)
+        if h:
+            lo, how, log = half, h, l
+        else:
+            lo = lo[len(lo) // 2:]
+    _write_tsv(lo, tsv)
+    h, l = _harness(tsv, out, 1, 60)
+    if h:
+        how, log = h, l
+    return (lo[0] if lo else None), how, log
+
+
+def run_cases(cases, workdir, tag, threads=16, verbose_ids=None):
+    os.makedirs(workdir, exist_ok=True)
+    tsv = os.path.join(workdir, tag + ".tsv")
+    _write_tsv(cases, tsv)
     cases_file = os.path.join(workdir, tag + ".cases")
-    rc, out = sh([os.path.join(HARNESS, "target", "debug", "entrait_verif_harness"), tsv, cases_file, str(threads)])
-    if rc != 0:
-        raise RuntimeError("harness failed: " + out[-2000:])
+    died, out = _harness(tsv, cases_file, threads, 240 + len(cases) // 100)
+    if died:
+        m = re.search(r"^HANG (.*)$", out, re.M)
+        if m:
+            # the harness' own watchdog names the case the macro does not return on
+            raise EngineDied(m.group(1).split("\t"), "does not terminate (no answer within the per-case time limit)", out[-2000:])
+        case, how, log = isolate_death(cases, workdir)
+        raise EngineDied(case, how, (log or out)[-3000:])
     rc, out = sh([os.path.join(LEAN, ".lake", "build", "bin", "driver"), cases_file])
     if rc != 0:
         raise RuntimeError("driver failed: " + out[-2000:])
@@ -280,7 +325,21 @@ def run_check(prop, tier, seed):
     plan = focus.plan(prop, tier, seed)
     cases = plan["cases"]
     by_id = {c[0]: c for c in cases}
-    results, cases_file, other = run_cases(cases, workdir, "main")
+    try:
+        results, cases_file, other = run_cases(cases, workdir, "main")
+    except EngineDied as e:
+        # the macro takes the whole process down (or never returns) on an input: no expansion exists for it
+        path = os.path.join(workdir, "replay_%s_0.txt" % prop)
+        with open(path, "w") as f:
+            f.write("# property %s\n# the real macro %s on this input (C15: expansion either succeeds or reports a diagnostic)\n" % (prop, e.how))
+            f.write("# replay: ./check %s --replay %s\n" % (prop, path))
+            if e.case:
+                f.write("CASE\t" + "\t".join(e.case) + "\n")
+            f.write(e.log)
+        print("VIOLATION property=%s replay=%s the real macro %s on input %s" % (prop, path, e.how, e.case[0] if e.case else "?"))
+        finish(prop, tier, seed, t0, {"obligations": max(1, len(names)), "discharged": 0, "checker_cmd": "E1 harness",
+                                      "trusted_base": TRUSTED_BASE, "explanation": "engine died: " + e.how}, 1)
+        return 1
     for line in other:
         if not line.startswith("LEXERR"):
             no_input_reasons.append("driver: " + line[:200])
@@ -534,7 +593,12 @@ def replay(prop, path):
     build_lean(prop)
     workdir = os.path.join(WORK, prop + "_replay")
     os.makedirs(workdir, exist_ok=True)
-    results, cases_file, _ = run_cases([tuple(case)], workdir, "replay", threads=1)
+    try:
+        results, cases_file, _ = run_cases([tuple(case)], workdir, "replay", threads=1)
+    except EngineDied as e:
+        print("the real macro %s on this input" % e.how)
+        print("VIOLATION property=%s replay=%s" % (prop, path))
+        return 1
     print(verbose_dump(cases_file, case[0], workdir))
     ambient = [l.rstrip("\n").split("\t")[1:] for l in open(path) if l.startswith("AMBIENT\t")]
     if ambient:
